@@ -1,6 +1,7 @@
 CONSTANTS
   Sigma = {"0", "1", "b", "_", "x", "o"}
   L = 4
+  LH = 4
   StrMode = "quick"
 SPECIFICATION MCSpec
 INVARIANTS AgreeBroken
